@@ -781,7 +781,18 @@ def check_property(pid, tier):
             checker_cmd=" && ".join(results[0]["cmds"]) if results and
             results[0]["cmds"] else "cbmc",
             trusted_base=trusted,
-            explanation=pinfo.get("explanation", ""),
+            explanation=pinfo.get("explanation") or (
+                "%s is decided for the functions listed under "
+                "functions_under_contract by %d CBMC targets (routes: %s); each "
+                "target compiles the real source file from /repo into a harness "
+                "that states the pre/postconditions taken from the property text, "
+                "CBMC discharges every generated obligation and every target's "
+                "must-fail controls have to fail. What the targets do not reach "
+                "is listed under unverified_surroundings; bounded stand-ins carry "
+                "their bound under bounds." % (
+                    pid, len(targets),
+                    ", ".join("%s x%d" % (k, len(v))
+                              for k, v in sorted(by_route.items())))),
             functions_under_contract=sorted(set(
                 "%s [route %s, %s]" % (f, t.get("route"), t["id"])
                 for t in targets for f in t.get("functions", []))),
